@@ -271,7 +271,17 @@ func (o *oidcHandler) redirectToIDP(ctx context.Context, log telemetry.Logger,
 		"code_challenge":        []string{oauth2.S256ChallengeFromVerifier(codeVerifier)},
 		"code_challenge_method": []string{"S256"},
 	}
-	redirectURL := o.config.GetAuthorizationUri() + "?" + query.Encode()
+	// The configured authorization endpoint may already carry a query of its own, in which case
+	// the authorization request parameters must be appended to it instead of starting a second one.
+	redirectURL := o.config.GetAuthorizationUri()
+	switch {
+	case strings.HasSuffix(redirectURL, "?") || strings.HasSuffix(redirectURL, "&"):
+	case strings.Contains(redirectURL, "?"):
+		redirectURL += "&"
+	default:
+		redirectURL += "?"
+	}
+	redirectURL += query.Encode()
 
 	// Generate denied response with redirect headers
 	deny := newDenyResponse()
